@@ -74,6 +74,18 @@ typedef struct source {
 
 typedef struct afault { int top, nth; } afault;
 
+/* simulated tables files (World T) */
+typedef struct tfile {
+	unsigned char *data;
+	long len, pos;
+	int chunk;       /* bytes per read call, 0 = as asked */
+	long eio;        /* read error once the position reaches this offset, -1 = never */
+	long reads;
+} tfile;
+#define MAXTFILE 16
+static tfile tfiles[MAXTFILE];
+static int ntfiles;
+
 typedef struct instx {
 	oplist top, acts, wraps;
 	int act_pos, wrap_pos;
@@ -465,6 +477,62 @@ static int cookie_close(void *c)
 {
 	(void) c;
 	return 0;
+}
+
+static ssize_t tf_read(void *c, char *buf, size_t size)
+{
+	tfile *t = (tfile *) c;
+	long n = t->len - t->pos;
+	t->reads++;
+	if (t->eio >= 0 && t->pos >= t->eio) {
+		ev("Y tread size=%zu pos=%ld EIO", size, t->pos);
+		errno = EIO;
+		return -1;
+	}
+	if ((long) size < n)
+		n = (long) size;
+	if (t->chunk > 0 && n > t->chunk)
+		n = t->chunk;
+	if (t->eio >= 0 && t->pos + n > t->eio)
+		n = t->eio - t->pos;
+	if (n < 0)
+		n = 0;
+	memcpy(buf, t->data + t->pos, (size_t) n);
+	t->pos += n;
+	return (ssize_t) n;
+}
+static int tf_seek(void *c, off64_t *off, int whence)
+{
+	tfile *t = (tfile *) c;
+	long np;
+	if (whence == SEEK_SET)
+		np = (long) *off;
+	else if (whence == SEEK_CUR)
+		np = t->pos + (long) *off;
+	else
+		np = t->len + (long) *off;
+	if (np < 0)
+		return -1;
+	t->pos = np;
+	*off = np;
+	return 0;
+}
+FILE *sim_tables_file(const sim_xop *x)
+{
+	cookie_io_functions_t io = { tf_read, NULL, tf_seek, cookie_close };
+	long id = x->a;
+	FILE *f;
+	if (id < 0 || id >= ntfiles)
+		die("bad tables file id %ld", id);
+	tfiles[id].pos = 0;
+	f = fopencookie(&tfiles[id], "r", io);
+	if (!f)
+		die("fopencookie failed");
+	if (x->b > 0)
+		setvbuf(f, NULL, _IOFBF, (size_t) x->b);
+	else if (x->b < 0)
+		setvbuf(f, NULL, _IONBF, 0);
+	return f;
 }
 
 static int fresh_source(sim_inst *I)
@@ -860,6 +928,8 @@ static int resolve(sim_inst *I, const plan_op *po, sim_xop *x, int in_action)
 			return 0;
 		if (I->lexed && I->depth == 0)
 			return 0;   /* no current buffer: not a permitted history */
+		if (vt->has_tables && I->tables_loaded != 1)
+			return 0;   /* a --tables-file scanner must load its tables first */
 		if (I->depth == 0 && !I->yyin_set) {
 			/* never let the scanner fall back to the real stdin */
 			s = fresh_source(I);
@@ -875,6 +945,8 @@ static int resolve(sim_inst *I, const plan_op *po, sim_xop *x, int in_action)
 	case SOP_DESTROY:
 		return !in_action;
 	case SOP_TABLES_LOAD:
+		x->a = lmod(po->a, ntfiles > 0 ? ntfiles : 1);
+		return !in_action && vt->has_tables && !I->tables_loaded && ntfiles > 0;
 	case SOP_TABLES_DESTROY:
 		return !in_action && vt->has_tables;
 	case SOP_NOP:
@@ -1190,6 +1262,62 @@ static void parse_line(char *line)
 			else if (!strncmp(tok[i], "vbuf=", 5)) s->vbuf = atoi(tok[i] + 5);
 			else die("bad src field %s", tok[i]);
 		}
+	} else if (!strcmp(tok[0], "tfile")) {
+		/* tfile <id> path=a+b+c trunc=N chunk=N eio=N flip=off:xor,off:xor */
+		tfile *t;
+		int i;
+		int id = atoi(tok[1]);
+		if (id != ntfiles || id >= MAXTFILE)
+			die("tables files must be numbered consecutively");
+		t = &tfiles[ntfiles++];
+		memset(t, 0, sizeof *t);
+		t->eio = -1;
+		t->data = (unsigned char *) calloc(1, 1);
+		for (i = 2; i < nt; i++) {
+			if (!strncmp(tok[i], "path=", 5)) {
+				char *q = tok[i] + 5;
+				while (q && *q) {
+					char *plus = strchr(q, '+');
+					FILE *f;
+					long n;
+					if (plus)
+						*plus = 0;
+					f = fopen(q, "rb");
+					if (!f)
+						die("cannot open tables file %s", q);
+					fseek(f, 0, SEEK_END);
+					n = ftell(f);
+					fseek(f, 0, SEEK_SET);
+					t->data = (unsigned char *) realloc(t->data, (size_t) (t->len + n + 1));
+					if (fread(t->data + t->len, 1, (size_t) n, f) != (size_t) n)
+						die("short read on %s", q);
+					fclose(f);
+					t->len += n;
+					q = plus ? plus + 1 : NULL;
+				}
+			} else if (!strncmp(tok[i], "trunc=", 6)) {
+				long n = atol(tok[i] + 6);
+				if (n < t->len)
+					t->len = n;
+			} else if (!strncmp(tok[i], "chunk=", 6)) {
+				t->chunk = atoi(tok[i] + 6);
+			} else if (!strncmp(tok[i], "eio=", 4)) {
+				t->eio = atol(tok[i] + 4);
+			} else if (!strncmp(tok[i], "flip=", 5)) {
+				char *q = tok[i] + 5;
+				while (*q) {
+					char *e;
+					long off = strtol(q, &e, 10);
+					long x = 0;
+					if (*e == ':')
+						x = strtol(e + 1, &e, 10);
+					if (off >= 0 && off < t->len)
+						t->data[off] ^= (unsigned char) x;
+					q = *e == ',' ? e + 1 : e;
+				}
+			} else
+				die("bad tfile field %s", tok[i]);
+		}
 	} else if (!strcmp(tok[0], "top")) {
 		int id = atoi(tok[1]);
 		opl_add(&instxs[id].top, parse_op(tok + 2, nt - 2));
@@ -1281,7 +1409,7 @@ static void run_instance(sim_inst *I)
 				I->prev_more = 0;
 				if (I->vt->reentrant)
 					I->inited = 0;
-				ev("D destroyed live=%ld bytes=%ld", X->live_cnt, X->live_bytes);
+				ev("D destroyed live=%ld bytes=%ld tables=%d", X->live_cnt, X->live_bytes, I->tables_loaded);
 			}
 		}
 		I->jb_valid = 0;
